@@ -25,6 +25,15 @@ Top-level clauses:
   caller_objects_untouched  headers / params / data objects passed by the caller are unchanged
   clone_accepts_adapter_or_list   clone(None | adapter | list | tuple of adapters) returns a caller whose
                             connection has the adapters in front of the original chain
+Credential dimension (harness/c17_creds.py): the value of a Basic-flavoured Authorization header must be the
+STANDARD base64 (RFC 4648 section 4: 62 -> '+', 63 -> '/') of utf-8("id:password"); which characters occur depends
+on the bytes of the credentials and on their offset modulo 3.  A grid of credentials (every special ASCII /
+multi-byte utf-8 character at every offset modulo 3 in login / password / client id / client secret, bearer tokens
+with '+', '/', '=') goes through four deployment shapes (wrapper class inside a 3-layer chain, method-caller clone
+with the adapter, adapter inside a list + caller + clone, add_adapter on a derived connection), and half of the
+random sequences get their credentials replaced by grid credentials.  The header value is decoded with the strict
+standard-alphabet decoder and compared with the configured bytes.
+
 Pre-conditions: at most one authenticating adapter per chain, no caller-supplied Authorization,
 paths and prefixes start with '/' and do not end with '/', address without trailing '/'.
 """
@@ -37,6 +46,7 @@ from unittest.mock import patch
 from urllib.parse import urlencode
 
 from ak import conn_http
+from harness import c17_creds
 from ak.mcaller_http import MCallerHttp, method_http
 
 ADDRESS = 'http://api.test:8080'
@@ -244,6 +254,19 @@ def auth_value_ok(a, value):
     return raw == cred.encode('utf-8')
 
 
+def not_standard_base64(value):
+    """one 'Basic xxx' value whose xxx the strict standard-alphabet decoder rejects"""
+    if isinstance(value, bytes):
+        value = value.decode('latin-1')
+    if not isinstance(value, str) or not value.startswith('Basic '):
+        return False
+    try:
+        base64.b64decode(value[6:], validate=True)
+    except Exception:      # noqa
+        return True
+    return False
+
+
 def check_request(mc, req, reqspec, args, ret, trace, what):
     """all per-request clauses; raises Fail.  args = (headers, params, data) as passed"""
     headers, params, data = args
@@ -287,8 +310,13 @@ def check_request(mc, req, reqspec, args, ret, trace, what):
     must_auth, may_auth = mc.auth(), mc.may_auth()
     if must_auth:
         if len(auths) != 1 or not auth_value_ok(must_auth[0], auths[0]):
-            raise Fail('one_authorization', 'wrong-or-missing', f"{what}: Authorization headers {auths!r}, the chain "
-                       f"authenticates with {must_auth[0]}")
+            ksuf, more = 'wrong-or-missing', ''
+            if len(auths) == 1 and must_auth[0][0] in ('basic', 'client') and not_standard_base64(auths[0]):
+                ksuf = 'basic-value-not-standard-base64'
+                more = (f"; the value is not standard (RFC 4648 section 4) base64, expected 'Basic "
+                        f"{c17_creds.ref_b64(c17_creds.cred_text(must_auth[0]).encode('utf-8'))}'")
+            raise Fail('one_authorization', ksuf, f"{what}: Authorization headers {auths!r}, the chain "
+                       f"authenticates with {must_auth[0]}{more}")
     elif auths:
         if not (may_auth and len(auths) == 1 and auth_value_ok(may_auth[0], auths[0])):
             raise Fail('one_authorization', 'unexpected', f"{what}: Authorization {auths!r} sent through a chain "
@@ -346,6 +374,8 @@ def do_request(st, captured, mc, reqspec, what, via=None, diags=None):
         kw['data'] = data
     if headers is not None or reqspec.get('pass_none'):
         kw['headers'] = headers
+    for a in mc.auth():
+        st.feats.update(c17_creds.classify(a))
     del captured[:]
     del TRACE[:]
     try:
@@ -410,6 +440,16 @@ def real(f, clause, ksuf, what):
         raise Fail(clause, f"{ksuf}-{type(e).__name__}", f"{what} raises {type(e).__name__}: {e}")
 
 
+def introduce(st, specs, where):
+    """reach events of the credential dimension, recorded when the authenticating adapter enters a chain"""
+    for s in specs:
+        if is_auth(s):
+            evs = c17_creds.classify(s)
+            st.feats.update(evs)
+            if evs & {'basic-credentials-base64-has-plus', 'basic-credentials-base64-has-slash'}:
+                st.feats.add('base64-62-63-credentials-introduced-by-' + where)
+
+
 def step(st, captured, op, diags):
     """-> (description, set of connections whose baseline is reset)"""
     kind = op[0]
@@ -422,6 +462,9 @@ def step(st, captured, op, diags):
         made = [mk_adapter(st, s) for s in specs]
         adapters = [m[0] for m in made]
         what = f"wrap #{k} with {how} {specs}"
+        if how != 'plain':
+            introduce(st, specs[:1] if how in ('class', 'single') else specs,
+                      'wrapper-class' if how == 'class' and is_auth(specs[0]) else 'adapters-argument')
         if how == 'class':                       # the dedicated wrapper classes
             s = specs[0]
             if s[0] == 'basic':
@@ -452,6 +495,7 @@ def step(st, captured, op, diags):
             spec = ['mark']
         a, m = mk_adapter(st, spec)
         what = f"add_adapter({spec}) on #{k}"
+        introduce(st, [spec], 'add_adapter')
         real(lambda: mc.obj.add_adapter(a), 'chain_applied_once', 'add_adapter', what)
         mc.must.append(m)
         reset = {k} | st.descendants(k)
@@ -484,6 +528,7 @@ def step(st, captured, op, diags):
         adapters = [m[0] for m in made]
         arg = None if how == 'none' else (adapters[0] if how == 'one' else (tuple(adapters) if how == 'tuple' else list(adapters)))
         what = f"caller #{j}.clone({how}: {specs})"
+        introduce(st, specs, 'clone')
         if how in ('list', 'tuple'):
             st.feats.add('clone-with-sequence')
             if len(specs) >= 2:
@@ -641,6 +686,48 @@ def fixed_cases():
                    ['call', 0, 'e', dict(PROBE, pass_none=False)]]}
 
 
+def cred_cases():
+    """every credential of the grid through four deployment shapes of the authenticating layer"""
+    req = {'verb': 'post', 'path': '/x', 'params': {'a': '1'}, 'body': ['json', {'k': 'v'}], 'headers': {'X-Custom': 'v1'},
+           'pass_none': False}
+    probe = dict(PROBE, pass_none=False)
+    for cred in c17_creds.grid():
+        # the dedicated wrapper class in the middle of a 3-layer chain
+        yield {'ops': [['wrap', 0, 'class', [['prefix', '/inner']]], ['wrap', 1, 'class', [cred]],
+                       ['wrap', 2, 'list', [['mark'], ['prefix', '/outer']]], ['req', 3, req]]}
+        # method-caller clone with the adapter; the original stays unauthenticated
+        yield {'ops': [['caller', 0], ['clone', 0, 'one', [cred]], ['call', 1, 'a', probe], ['call', 0, 'a', probe]]}
+        # the adapter inside a list, a caller on top, a clone with a list, a prefixed (cached) connection
+        yield {'ops': [['wrap', 0, 'list', [['mark'], cred]], ['caller', 1], ['clone', 0, 'list', [['prefix', '/p1']]],
+                       ['call', 1, 'b', req], ['call', 1, 'b', probe]]}
+        # added later to a derived connection
+        yield {'ops': [['wrap', 0, 'plain', [['mark']]], ['add_adapter', 1, cred], ['req', 1, req]]}
+
+
+def vary_creds(case, rnd):
+    """the same sequence with every authenticating adapter replaced by one of the same kind from the grid"""
+    pools = {'basic': c17_creds.basic_grid(), 'client': c17_creds.client_grid(), 'token': c17_creds.token_grid()}
+
+    def sub(spec):
+        return rnd.choice(pools[spec[0]]) if is_auth(spec) else spec
+    ops = []
+    for op in case['ops']:
+        if op[0] in ('wrap', 'clone'):
+            op = op[:3] + [[sub(s) for s in op[3]]]
+        elif op[0] == 'add_adapter':
+            op = op[:2] + [sub(op[2])]
+        ops.append(op)
+    return {'ops': ops}
+
+
+def g_case_k(seed, k):
+    """random sequence number k: the sequence of g_case; for every second k with credentials from the grid"""
+    case = g_case(random.Random(f"C17/{seed}/{k}"))
+    if k % 2:
+        case = vary_creds(case, random.Random(f"C17/creds/{seed}/{k}"))
+    return case
+
+
 def shrink(case, fail):
     key = (fail[0], fail[1])
     ops = list(case['ops'][:fail[3] + 1])
@@ -680,7 +767,15 @@ def _eval(case):
 
 def _worker(args):
     seed, lo, hi = args
-    return [_eval(g_case(random.Random(f"C17/{seed}/{k}"))) for k in range(lo, hi)]
+    return [_eval(g_case_k(seed, k)) for k in range(lo, hi)]
+
+
+def _worker_cred(args):
+    lo, hi = args
+    return [_eval(c) for c in CRED_CASES[lo:hi]]
+
+
+CRED_CASES = []
 
 
 def _record(b, res):
@@ -701,17 +796,29 @@ def _record(b, res):
 def run(b):
     for case in fixed_cases():
         _record(b, _eval(case))
+    CRED_CASES[:] = list(cred_cases())
     n_seq = 1000 if b.tier == 'quick' else 20000
     nproc = 6 if b.tier == 'quick' else 12
     step_ = max(25, n_seq // (nproc * 8))
     jobs = [(b.seed, lo, min(lo + step_, n_seq)) for lo in range(0, n_seq, step_)]
     ctx = multiprocessing.get_context('fork')
     with ctx.Pool(nproc) as pool:
+        cjobs = [(lo, min(lo + 40, len(CRED_CASES))) for lo in range(0, len(CRED_CASES), 40)]
+        for chunk in pool.imap(_worker_cred, cjobs):
+            for res in chunk:
+                _record(b, res)
         for chunk in pool.imap(_worker, jobs):
             for res in chunk:
                 _record(b, res)
     b.require_reach(['clone-with-sequence', 'clone-with-2-adapters', 'cached-prefixed-connection-reused',
-                     'structured-body', 'chain>=2', 'add_adapter', 'call-a', 'call-b', 'call-e', 'wrap', 'request'])
+                     'structured-body', 'chain>=2', 'add_adapter', 'call-a', 'call-b', 'call-e', 'wrap', 'request',
+                     'basic-credentials-base64-has-plus', 'basic-credentials-base64-has-slash',
+                     'basic-credentials-base64-has-plus-and-slash', 'basic-credentials-non-ascii',
+                     'basic-credentials-padding-0', 'basic-credentials-padding-1', 'basic-credentials-padding-2',
+                     'base64-62-63-credentials-introduced-by-wrapper-class', 'base64-62-63-credentials-introduced-by-clone',
+                     'base64-62-63-credentials-introduced-by-adapters-argument',
+                     'base64-62-63-credentials-introduced-by-add_adapter',
+                     'bearer-token-with-base64-characters'])
 
 
 def replay_case(case):
